@@ -225,6 +225,24 @@ func runC15(c *Ctx, phase string) {
 		leaf := make([]string, len(tc.Terms))
 		for q, t := range tc.Terms {
 			leaf[q] = t.Text()
+			if !t.Ref && r.Chance(1, 6) {
+				// spellings whose validity is the library's (and C05's) business: a deprecated id or an id with a listed suffix carrying
+				// a (second) suffix, an exception id with a suffix after WITH. IF the tree under check accepts one, it is a valid
+				// prefix term like any other and everything behind it must still be located correctly
+				var cand string
+				switch r.Intn(3) {
+				case 0:
+					cand = r.Pick(u.DepPlain) + []string{"-or-later", "-only", "-or-later+"}[r.Intn(3)]
+				case 1:
+					cand = r.Pick(append(append([]string{}, u.ListedOnly...), u.ListedLater...)) + []string{"-or-later", "-only", "-or-later+"}[r.Intn(3)]
+				default:
+					cand = "MIT WITH " + r.Pick(u.Exceptions) + []string{"-or-later", "-only"}[r.Intn(2)]
+				}
+				if !strings.Contains(strings.TrimSuffix(cand, "+"), "+") && c.Valid(cand) {
+					leaf[q] = cand
+					c.Inc("prefix_terms_in_library_accepted_odd_spellings")
+				}
+			}
 		}
 		prefix := tc.Tree.Render(leaf, gen.RenderOpt{Paren: r.Intn(3), Spaces: r.Chance(1, 2), R: r})
 		rewrites, laterPlus := 0, 0
